@@ -623,13 +623,16 @@ def _normalize_media(media: Type[ComponentMediaInput]) -> None:
         # Allow: class Media: css = {"all": "style.css"}
         #        class Media: css = {"all": ["style.css"]}
         elif isinstance(media.css, dict):
+            # NOTE: We build a new dict, because the declared dict may be shared by more Media classes
+            normalized_css: Dict[str, Any] = {}
             for media_type, path_or_list in media.css.items():
                 # {"all": "style.css"}
                 if _is_media_filepath(path_or_list):
-                    media.css[media_type] = [path_or_list]  # type: ignore
+                    normalized_css[media_type] = [path_or_list]
                 # {"all": ["style.css"]}
                 else:
-                    media.css[media_type] = path_or_list  # type: ignore
+                    normalized_css[media_type] = path_or_list
+            media.css = normalized_css  # type: ignore[assignment]
         else:
             raise ValueError(f"Media.css must be str, list, or dict, got {type(media.css)}")
 
@@ -658,8 +661,10 @@ def _map_media_filepaths(media: Type[ComponentMediaInput], map_fn: Callable[[Any
         if not isinstance(media.css, dict):
             raise ValueError(f"Media.css must be a dict, got {type(media.css)}")
 
-        for media_type, path_list in media.css.items():
-            media.css[media_type] = list(map(map_fn, path_list))  # type: ignore[assignment]
+        # NOTE: We build a new dict, because the declared dict may be shared by more Media classes
+        media.css = {  # type: ignore[assignment]
+            media_type: list(map(map_fn, path_list)) for media_type, path_list in media.css.items()
+        }
 
     if hasattr(media, "js") and media.js:
         if not isinstance(media.js, (list, tuple)):
